@@ -25,6 +25,8 @@ type PartReader struct {
 	left        int // left in the current chunk
 	EOFWithLast bool
 	Reads       int
+	ZeroReads   int
+	zeroRun     int
 }
 
 func NewPartReader(data []byte, cuts []int, eofWithLast bool) *PartReader {
@@ -44,12 +46,20 @@ func (p *PartReader) Read(b []byte) (int, error) {
 		if len(p.cuts) > 0 {
 			c = p.cuts[p.i%len(p.cuts)]
 			p.i++
+			if c == 0 && p.zeroRun < 3 {
+				// a read that delivers nothing and no error: io.Reader allows it ("nothing
+				// happened"; io.Pipe does it for zero-length writes); at most 3 in a row
+				p.zeroRun++
+				p.ZeroReads++
+				return 0, nil
+			}
 			if c <= 0 {
 				c = 1
 			}
 		}
 		p.left = c
 	}
+	p.zeroRun = 0
 	n := len(b)
 	if n > p.left {
 		n = p.left
@@ -92,6 +102,16 @@ func init() {
 			if tier == "thorough" && r.Chance(0.1) {
 				p.Sizes = append(p.Sizes, Pick(r, []int{262143, 262144, 262145, 70000}))
 			}
+			if p.Kind == "packfile" && r.Chance(0.06) {
+				// an object beyond 1 MiB (and beyond 4 MiB in the thorough tier) followed by further objects
+				big := Pick(r, []int{1<<20 - 1, 1 << 20, 1<<20 + 1, 1200000, 2500000})
+				if tier == "thorough" && r.Chance(0.3) {
+					big = 4<<20 + r.Intn(3)
+				}
+				at := r.Intn(len(p.Sizes))
+				p.Sizes = append(p.Sizes[:at:at], append([]int{big}, p.Sizes[at:]...)...)
+				p.Sizes = append(p.Sizes, Pick(r, []int{1, 17, 300}))
+			}
 			switch r.Intn(7) {
 			case 0: // whole
 			case 1:
@@ -105,7 +125,14 @@ func init() {
 			default:
 				k := r.Range(2, 12)
 				for i := 0; i < k; i++ {
-					p.Cuts = append(p.Cuts, Pick(r, []int{1, 2, 3, 4, 5, 7, 8, 15, 16, 17, 31, 33, 100, 1000}))
+					p.Cuts = append(p.Cuts, Pick(r, []int{1, 2, 3, 4, 5, 7, 8, 15, 16, 17, 31, 33, 100, 1000, 4096, 32768}))
+				}
+			}
+			if len(p.Cuts) > 0 && r.Chance(0.25) {
+				// sprinkle reads that return (0, nil)
+				for k := r.Range(1, 3); k > 0; k-- {
+					at := r.Intn(len(p.Cuts) + 1)
+					p.Cuts = append(p.Cuts[:at:at], append([]int{0}, p.Cuts[at:]...)...)
 				}
 			}
 			return p
@@ -152,7 +179,7 @@ func c18Build(p *C18Plan) (stream []byte, decode func(r io.Reader) string, err e
 			return nil, nil, err
 		}
 		for i := range p.Sizes {
-			if sz(i) > 400000 {
+			if sz(i) > 5000000 {
 				return nil, nil, fmt.Errorf("size too large")
 			}
 			if _, err := w.WriteObject(1+r.Intn(3), c18RandBytes(r, sz(i))); err != nil {
